@@ -8,20 +8,20 @@ use model::*;
 fn describe(prop: &str) -> (&'static str, &'static str) {
     match prop {
         "C01" => (
-            "Transfer/Send/Burn/Mint/Increase/DecreaseAllowance/TransferFrom/SendFrom/BurnFrom/UpdateMinter by every actor to every recipient (self-transfers included), amounts {0,1,2,3} (+5 for mint) in closed configs and {0,1,2^128-2,2^128-1} in edge configs; instantiate messages with duplicates, u128 overflow, cap below supply",
+            "Transfer/Send/Burn/Mint/Increase/DecreaseAllowance/TransferFrom/SendFrom/BurnFrom/UpdateMinter by every actor to every recipient (self-transfers included), amounts {0,1,2,3} (+5 for mint) in closed configs and {0,1,2^128-2,2^128-1} in edge configs; instantiate messages with repeated accounts (also with empty rows, and one account in two bech32 spellings), u128 overflow; the token contract itself as recipient / owner; the marketing entry points; the chain-level admin as a stranger; 33 accounts carried through a migration from every old cw2 version (incl. two pre-release tags)",
             "state: TokenInfo.total_supply == sum of Balance over all paged AllAccounts, no unlisted holder; transition: mint/burn change supply and exactly one balance by exactly the amount, every other accepted or refused call leaves supply unchanged; lock-step reference ledger in checked arithmetic",
         ),
         "C02" => (
-            "Transfer/Send/Burn by holders and strangers, Increase/DecreaseAllowance with every expiry kind (none, never, height/time already expired, +1, +2 blocks), TransferFrom/SendFrom/BurnFrom by every spender naming every owner, AdvanceBlock across every expiry; both orders of the reduce-vs-spend race from every reachable allowance",
+            "Transfer/Send/Burn by holders and strangers, Increase/DecreaseAllowance with every expiry kind (none, never, height/time already expired, +1, +2 blocks), TransferFrom/SendFrom/BurnFrom by every spender naming every owner, AdvanceBlock across every expiry; both orders of the reduce-vs-spend race from every reachable allowance; the receiving contract holding an allowance of its own; mints, minter changes and marketing calls; a migration from every old layout in the middle of any history",
             "reference ledger of balances and (amount, expiry) allowances stepped on accepted calls: an accepted call the reference forbids (no/expired/insufficient allowance, insufficient funds, self-allowance, expired expiry) is a violation; balances fall only for the caller or the named owner of an authorised draw; allowances change only by owner increase/decrease or spender draw; Send/SendFrom emit exactly one Cw20ReceiveMsg with the true initiator, amount and payload; cumulative drawn <= granted monitor",
         ),
         "C13" => (
-            "Mint by initial minter, later minters, former minters and strangers with amounts {0,1,2,3,2^128-1}; Burn; Transfer; UpdateMinter{None|each} by everyone",
+            "Mint by initial minter, later minters, former minters, strangers and the chain-level admin with amounts {0,1,2,3,2^128-1}; Burn; Transfer; UpdateMinter{None|each} by everyone; the holder calling the *From entry points on itself; a minter that grants an allowance; caps 0, 2..4, 1000 and 2^128-1; 33 holders under a cap through every migration",
             "reference {minter, cap fixed at instantiation}: supply rises only in an accepted Mint by the reference minter, supply <= cap in every state, Minter query == (reference minter, original cap), UpdateMinter accepted only from the reference minter, nothing accepted once the minter is None",
         ),
         "C19" => (
-            "Increase/DecreaseAllowance (to exactly zero, above, below; expiries), TransferFrom/SendFrom/BurnFrom (to exactly zero) among owners and spenders incl. mutual ones, AdvanceBlock; at every reachable state: migrate from a pre-0.14 layout (spender index wiped, cw2 version 0.13.4 / 0.13.0 / 0.12.1 / 0.10.3 / 0.9.1 / 0.2.3) and same-version migrate",
-            "for every ordered pair: Allowance{o,s}, the entry for s in the fully paged AllAllowances{o} and the entry for o in the fully paged AllSpenderAllowances{s} carry the same amount and expiry; a pair absent from one listing is absent from the other and reads (0, never); migration leaves every query unchanged",
+            "Increase/DecreaseAllowance (to exactly zero, above, below; expiries), TransferFrom/SendFrom/BurnFrom (to exactly zero) among owners and spenders incl. mutual ones, AdvanceBlock; at every reachable state: migrate from a pre-0.14 layout (spender index wiped, cw2 version 0.13.4 / 0.13.0 / 0.12.1 / 0.10.3 / 0.9.1 / 0.2.3 / 0.10.0-soon4 / 0.6.0-beta3; optionally a legacy self-approval row) and same-version migrate; tables of 36 rows (3 owners x 12 spenders) and of one owner with 33 spenders; mutual grants; Burn/Transfer/Send/Mint/UpdateMinter/marketing calls by owners",
+            "for every ordered pair: Allowance{o,s}, the entry for s in the fully paged AllAllowances{o} and the entry for o in the fully paged AllSpenderAllowances{s} carry the same amount and expiry; a pair absent from one listing is absent from the other and reads (0, never), the pair (X, X) included; a listing resumed from any actor address shows exactly the rows after it; migration leaves every query unchanged",
         ),
         _ => ("", ""),
     }
